@@ -26,7 +26,7 @@ func famStreams(w *World, c *Case, rng *rand.Rand) {
 	}
 	k := 1 + rng.Intn(c.p("maxrpcs", 5))
 	budget := c.p("budget", 3<<20)
-	o := ScriptOpts{MaxMsgs: c.p("maxmsgs", 5), MaxSize: c.p("maxsize", 1<<20+1), Pacing: []string{"eager", "lag", "mixed"}[rng.Intn(3)], Status: c.p("status", 1) == 1, Meta: c.p("meta", 1) == 1, BudgetLeft: &budget}
+	o := ScriptOpts{FlowControl: w.Cfg.RevisionOne(), MaxMsgs: c.p("maxmsgs", 5), MaxSize: c.p("maxsize", 1<<20+1), Pacing: []string{"eager", "lag", "mixed"}[rng.Intn(3)], Status: c.p("status", 1) == 1, Meta: c.p("meta", 1) == 1, BudgetLeft: &budget}
 	if c.p("big", 0) == 1 {
 		o.BigProb = 25
 	}
